@@ -4,6 +4,7 @@ import (
 	"fmt"
 	"strings"
 	"testing"
+	"unicode/utf8"
 
 	"github.com/opsidian/parsley/ast"
 	"github.com/opsidian/parsley/combinator"
@@ -19,6 +20,7 @@ type C04Case struct {
 	MemoAll bool     `json:"memoAll"`
 	Interp  int      `json:"interp"`           // 0: strict concatenation, 1: concatenation that skips EMPTY
 	PreLen  int      `json:"preLen,omitempty"` // > 0: the parsed file follows a file of that length
+	Wide    int      `json:"wide,omitempty"`   // != 0: the model's terminal 'b' is this multi-byte rune for the library
 }
 
 func (c *C04Case) Describe() string {
@@ -57,6 +59,16 @@ func checkC04(ci interface{}, st *Stats) error {
 	classifyGrammar(g, st)
 	ref := NewRef(g, in)
 	want := ref.T[0][0]&(1<<uint(len(in))) != 0
+	wide := c.Wide != 0
+	if wide {
+		if c.Wide < 0x80 || !utf8.ValidRune(rune(c.Wide)) {
+			return Discard{"not a multi-byte rune"}
+		}
+		// from here on the input is what the library sees; the reference has already spoken
+		in = widen(in, rune(c.Wide)).Lib
+		st.Class("terminal b is a multi-byte rune")
+	}
+	modelIn := c.In
 	memo := recursiveRules(g)
 	if c.MemoAll {
 		for i := range memo {
@@ -68,7 +80,7 @@ func checkC04(ci interface{}, st *Stats) error {
 		probe.InLen = len(in)
 		ctx, _, pb := NewCtxAt(in, c.PreLen)
 		probe.Base = pb
-		b := Build(g, BuildOpts{MemoRules: memo, Probe: probe, Interp: concatInterp(c.Interp == 1)})
+		b := Build(g, BuildOpts{MemoRules: memo, Probe: probe, Interp: concatInterp(c.Interp == 1), Wide: rune(c.Wide)})
 		defer func() {
 			if r := recover(); r != nil {
 				if _, ok := r.(budgetExceeded); ok {
@@ -88,7 +100,7 @@ func checkC04(ci interface{}, st *Stats) error {
 		root := combinator.Sentence(b.NT[0])
 		if len(in) >= 2 {
 			// the grammar value has a history: it parsed a shorter input (the first half) before
-			ctx0, _, _ := NewCtxAt(in[:len(in)/2], 0)
+			ctx0, _, _ := NewCtxAt(widen(modelIn[:len(modelIn)/2], rune(c.Wide)).Lib, 0)
 			_, _ = parsley.Parse(ctx0, root)
 		}
 		if evaluate {
@@ -143,9 +155,9 @@ func checkC04(ci interface{}, st *Stats) error {
 	if c.PreLen > 0 {
 		st.Class("file placed after another file")
 	}
-	trims := hasKind(g, KLTrim) || hasKind(g, KRTrim)
-	lead := 0 // whitespace a LeftTrim may skip before the first node
-	if trims {
+	trims := hasKind(g, KLTrim) || hasKind(g, KRTrim) || wide // (no tree validation: offsets differ from the model's)
+	lead := 0                                                 // whitespace a LeftTrim may skip before the first node
+	if trims && !wide {
 		st.Class("accepted, grammar with whitespace trimming")
 		lead, _, _, _ = judgeRun([]byte(in), 0, 2)
 	}
@@ -185,7 +197,7 @@ func checkC04(ci interface{}, st *Stats) error {
 		st.Class("accepted, ambiguous grammar")
 		st.NonTrivial()
 	}
-	if trims {
+	if trims && !wide {
 		// the values are the terminals: the input without its whitespace
 		in = strings.Map(func(r rune) rune {
 			if r == ' ' || r == '\t' || r == '\n' || r == '\f' {
@@ -213,7 +225,7 @@ func checkC04(ci interface{}, st *Stats) error {
 			}
 		}
 	case *ast.TerminalNode:
-		if everr != nil || val != rune(in[0]) {
+		if first, _ := utf8.DecodeRuneInString(in); everr != nil || val != first {
 			return fmt.Errorf("Evaluate returned %#v / %v for a single terminal, want %q", val, everr, in)
 		}
 	default:
@@ -235,6 +247,10 @@ func init() {
 			o.RuleNames = rapid.IntRange(0, 3).Draw(t, "rulenames") == 1
 			o.Suppress = rapid.IntRange(0, 3).Draw(t, "suppress") == 0
 			o.RefTrims = rapid.IntRange(0, 3).Draw(t, "reftrims") == 0
+			wideRune := 0
+			if !o.RefTrims && rapid.IntRange(0, 5).Draw(t, "wide") == 0 {
+				wideRune = int(rapid.SampledFrom([]rune{0x80, 0xe9, 0xff, 0x100, 0x7ff, 0x800, 0x20ac, 0xfffd, 0xffff, 0x10000, 0x1f600}).Draw(t, "wideRune"))
+			}
 			if rapid.IntRange(0, 4).Draw(t, "extramemo") == 0 {
 				o.ExtraMemo = 4
 			}
@@ -249,7 +265,7 @@ func init() {
 					pre = rapid.SampledFrom([]int{65533, 65534, 65536, 70000, 140000}).Draw(t, "hugeLen")
 				}
 			}
-			return &C04Case{G: g, In: GenInput(t, g, o), MemoAll: rapid.Bool().Draw(t, "memoAll"), Interp: rapid.IntRange(0, 1).Draw(t, "interp"), PreLen: pre}
+			return &C04Case{G: g, In: GenInput(t, g, o), MemoAll: rapid.Bool().Draw(t, "memoAll"), Interp: rapid.IntRange(0, 1).Draw(t, "interp"), PreLen: pre, Wide: wideRune}
 		},
 		Check: checkC04,
 	})
